@@ -13,11 +13,30 @@ PARTS = dict(
     ),
     recycle=dict(props_file=None, observers=[]),
 )
+# the recycling half (builder ps): the same props file and observer as the stand-alone ./check C29b
+from props import C29b as _recycle  # noqa: E402
+PARTS["recycle"]["props_file"] = _recycle.SPEC["props_file"]
+# (corpus/C29 holds byte-level inputs; the quick tier runs fewer recycling cases here than ./check C29b to stay within the time budget)
+PARTS["recycle"]["observers"] += [dict(o, corpus=False, n=dict(o["n"], quick=100)) for o in _recycle.SPEC["observers"]]
+
+
+def _recycle_closed(ctx):
+    """Print Assumptions for the theorems of the recycling half (flow.standard does it for SPEC["props_file"] only)."""
+    from vlib import core
+    a = core.coq_assumptions(ctx, PARTS["recycle"]["props_file"])
+    ctx.coverage.setdefault("print_assumptions", {}).update(a["assumptions"])
+    ctx.coverage.setdefault("theorem_statements_recycle", a["theorems"])
+    if a["ok"] and a["theorems"]:
+        return []
+    return ["Print Assumptions (%s): %s %s" % (PARTS["recycle"]["props_file"], a["bad"], a["log"][-500:])]
+
 
 SPEC = dict(
     props_file=PARTS["bytes"]["props_file"],
     level="proof",
-    observers=PARTS["bytes"]["observers"],
+    observers=PARTS["bytes"]["observers"] + PARTS["recycle"]["observers"],
+    extra_props=[PARTS["recycle"]["props_file"]],
+    extra=_recycle_closed,
     rule="generated replies of every type (counted / streamed strings in any chunk split, verbatim, simple, double, big number, integer, "
          "bool, nulls of every encoding, errors, aggregates, attribute frames; payload sizes around the buffer size) optionally preceded "
          "by push frames and followed by the next reply, through the real streamTo with bufio sizes {32,64,4096} and three ways of "
@@ -28,6 +47,9 @@ SPEC = dict(
              "the caller's io.Writer is modelled as accepting a budget of bytes and then failing with a short write"],
     assumptions=["B >= 32", "payloads <= 2^48 bytes"],
 )
+SPEC["rule"] += ". RECYCLING HALF (obs_stream): " + _recycle.SPEC["rule"]
+SPEC["trusted"] = SPEC["trusted"] + _recycle.SPEC["trusted"]
+SPEC["assumptions"] = SPEC["assumptions"] + _recycle.SPEC["assumptions"]
 
 MANIFEST = dict(
     text="Proof (byte level): for every string / verbatim / simple / double / big-number / integer / boolean reply (counted or streamed in any "
